@@ -24,7 +24,7 @@ type schedReader struct {
 
 func (r *schedReader) Read(p []byte) (int, error) {
 	r.calls++
-	if r.calls > 64 {
+	if r.calls > 64+2*len(r.doc) {
 		return 0, io.ErrNoProgress // harness guard: the decoder keeps reading after EOF
 	}
 	if r.calls-1 == r.zeroAt {
